@@ -144,8 +144,19 @@ Definition w6 := W (Project (LeftJoin (Some []) (Values [[(1, 1)]]) (BGP [(Vr 1,
 Definition w7 := W (Project (Join true (BGP [(Vr 1, Tm 4, Vr 2)]) (Filter false (Some [1; 2; 3]) (EBound 1) (BGP [(Vr 2, Tm 5, Vr 3)]))) [1; 2; 3])
                    [(1, 4, 2); (2, 5, 3)].
 
+(* F-C04-5  { ?1 p ?2 . { ?1 q ?3 OPTIONAL { ?3 p ?4 FILTER(?4 = ?1) } } } *)
+Definition w5 := W (Project (Join true (BGP [(Vr 1, Tm 4, Vr 2)])
+                      (LeftJoin (Some [1; 3]) (BGP [(Vr 1, Tm 5, Vr 3)]) (BGP [(Vr 3, Tm 4, Vr 4)]) (ECmp OpEq (EVar 4) (EVar 1))))
+                    [2; 1; 4; 3])
+                   [(1, 4, 2); (1, 5, 3); (3, 4, 1)].
+(* F-C04-9  { ?1 p ?2 . ?1 q ?3 FILTER(!(?2 = ?3)) } on data with an integer and a boolean object *)
+Definition w9 := W (Project (Filter false (Some [2; 3]) (ENot (ECmp OpEq (EVar 2) (EVar 3)))
+                              (BGP [(Vr 1, Tm 4, Vr 2); (Vr 1, Tm 5, Vr 3)])) [1; 2; 3])
+                   [(1, 4, 11); (1, 5, 21)].
+
 Definition refuted (c : case) : Prop := spec_ok c (model_obs c) = false /\ N.eqb (kf c) 0 = false.
 
-Lemma findings_refuted : refuted w1 /\ refuted w2 /\ refuted w3 /\ refuted w4 /\ refuted w6 /\ refuted w7.
+Lemma findings_refuted :
+  refuted w1 /\ refuted w2 /\ refuted w3 /\ refuted w4 /\ refuted w5 /\ refuted w6 /\ refuted w7 /\ refuted w9.
 Proof. repeat split; vm_compute; reflexivity. Qed.
 
